@@ -23,10 +23,10 @@ import (
 // success/failure script. Process death is observed by the parent (expectation children).
 
 type c19Params struct {
-	Script string   `json:"script,omitempty"` // S/F per ping, then S forever
-	StopAt int      `json:"stop_at,omitempty"` // call Stop() after this many pings returned (0 = never)
-	Calls  []string `json:"calls,omitempty"`   // permutation scenario: sequence of Start/Stop calls
-	IntervalMs int  `json:"interval_ms,omitempty"`
+	Script     string   `json:"script,omitempty"`  // S/F per ping, then S forever
+	StopAt     int      `json:"stop_at,omitempty"` // call Stop() after this many pings returned (0 = never)
+	Calls      []string `json:"calls,omitempty"`   // permutation scenario: sequence of Start/Stop calls
+	IntervalMs int      `json:"interval_ms,omitempty"`
 }
 
 type pingClient struct {
